@@ -74,10 +74,11 @@ class Prop(PropBase):
         """the argument passed to snippet, and the double (as exact rational) the code derives from it"""
         u = self.u
         t = case["t"]
+        k = case.get("seed", 0) % 4
         if case["form"] == "int":
-            return int(t), F(int(t))
+            return (int(t), self.np.int64(int(t)), self.np.int32(int(t)), int(t))[k], F(int(t))
         if case["form"] == "float":
-            return float(t), X.frac(float(t))
+            return (float(t), self.np.float64(t), float(t), self.np.array(float(t)))[k], X.frac(float(t))
         if case["form"] == "duration":
             q = (float(t) / z.sample_rate).to(u.Unit(case["unit"]))
             seen = (q * z.sample_rate).to_value(u.one)
@@ -96,7 +97,8 @@ class Prop(PropBase):
         arg, seen = self._targ(case, z)
         out = {"seen": None if seen is None else X.rat(seen)}
         try:
-            y = pb.snippet(z, arg, case["n"])
+            n_arg = (case["n"], np.int64(case["n"]), case["n"], np.uint8(case["n"]) if 0 <= case["n"] < 200 else case["n"])[case.get("seed", 0) % 4]
+            y = pb.snippet(z, arg, n_arg)
         except Exception as e:
             out["err"] = err_name(e)
             return out
